@@ -326,7 +326,7 @@ fn gen_leaf(r: &mut Rng, g: &GenCfg, depth: u32, out: &mut Vec<T>) {
         6 | 7 => out.push(int(*r.pick(&["0", "1", "2", "3", "10"]))),
         8 => out.push(T::Float(r.pick(&["2.5", "0.25", "1.0", "3.75", "0.1", "2.50"]).to_string())),
         9 if g.bools => out.push(w(*r.pick(&["true", "false"]))),
-        10 if g.odd_words => out.push(w(*r.pick(&["android", "order", "nothing", "iffy", "xor1", "implies2", "mins", "format", "$x", "_u", "inx", "ast", "lets", "And", "NOT", "forêt", "orée", "notée", "inès", "asín", "maxı", "trueé", "λ", "дa"]))),
+        10 if g.odd_words => out.push(w(*r.pick(&["android", "order", "nothing", "iffy", "xor1", "implies2", "mins", "format", "$x", "_u", "inx", "ast", "lets", "And", "NOT", "not1", "true2", "and3x", "e1", "e5", "xor2", "in1", "or0", "iff9", "E2", "forêt", "orée", "notée", "inès", "asín", "maxı", "trueé", "λ", "дa"]))),
         11 | 12 => {
             // implicit multiplication: (number | parenthesis)+ variable?
             let n = 1 + r.below(3);
@@ -468,7 +468,8 @@ pub fn generate(seed: u64, n: usize, thorough: bool, corpus: Option<&str>) -> Ve
     }
 
     // --- implicit multiplication: every arrangement of up to 4 atoms {2, (a), (a+b), x} in the contexts a/_ , -_ , _*c
-    let atoms: [Vec<T>; 5] = [vec![int("2")], vec![T::LPar, w("a"), T::RPar], vec![T::LPar, w("a"), T::Plus, w("b"), T::RPar], vec![w("x")], vec![T::Float("2.5".into())]];
+    let atoms: [Vec<T>; 6] = [vec![int("2")], vec![T::LPar, w("a"), T::RPar], vec![T::LPar, w("a"), T::Plus, w("b"), T::RPar], vec![w("x")], vec![T::Float("2.5".into())],
+        vec![w("e1")]];
     let mut arrangements: Vec<Vec<usize>> = vec![];
     for len in 1..=(if thorough { 4 } else { 3 }) {
         let mut idx = vec![0usize; len];
